@@ -154,6 +154,78 @@ theorem close_stops_all_writes (st : LState) (evs : List Event) :
   refine ⟨?_, h3⟩
   rw [h1]; simp only [step]; exact doClose_wire st
 
+/-! ## UDP: a template the refresher cannot rebuild (D17) -/
+
+/-- a template with a dateTimeMicroseconds or dateTimeNanoseconds element - wherever in the template, whatever the
+    other elements - cannot be rebuilt: entities.MakeTemplateSet fails on it
+    (DecodeAndCreateInfoElementWithValue(ie, nil) has no value for these types) -/
+theorem micro_nano_template_unbuildable (tid : Nat) (ies : List IE) (ie : IE) (hm : ie ∈ ies)
+    (hty : ie.ty = .dateTimeMicroseconds ∨ ie.ty = .dateTimeNanoseconds) :
+    makeTemplateSet tid ies = none :=
+  makeTemplateSet_none_of_mem tid ies ie hm (zeroValue_err_of_micro_nano ie hty)
+
+/-- "a refresh that cannot be built closes the process": a refresh tick on an open UDP process that has recorded a
+    template for which MakeTemplateSet fails - in whatever order the map iteration visits the templates - closes
+    the process (exactly one more close(stopCh)), leaves no refresh work queued and writes NOTHING (not even the
+    templates that could have been rebuilt); nothing else of the state changes -/
+theorem unbuildable_refresh_closes (st : LState) (prio : Nat → Nat) (tid : Nat) (ies : List IE)
+    (hudp : st.proto = .udp) (hopen : st.closed = false) (hidle : st.pending = [])
+    (hrec : (tid, ies) ∈ st.tpls) (hfail : makeTemplateSet tid ies = none) :
+    (step st (.refreshTick prio)).1.closed = true ∧ (step st (.refreshTick prio)).1.pending = [] ∧
+    (step st (.refreshTick prio)).1.wire = st.wire ∧ (step st (.refreshTick prio)).1.stopCloses = st.stopCloses + 1 ∧
+    (step st (.refreshTick prio)).1.exp = st.exp ∧ (step st (.refreshTick prio)).1.tpls = st.tpls ∧
+    (step st (.refreshTick prio)).2 = none := by
+  have h : (step st (.refreshTick prio)).1 = { st with closed := true, stopCloses := st.stopCloses + 1, pending := [] } := by
+    show st.refreshTick prio = _
+    rw [refreshTick_unbuildable st prio tid ies hudp hopen hidle hrec hfail, doClose_open st hopen]
+  rw [h]
+  exact ⟨rfl, rfl, rfl, rfl, rfl, rfl, rfl⟩
+
+/-- ... and from then on, for EVERY further schedule: every SendSet of the application RETURNS an error (it is a step
+    of the event system like any other: it does not wait for anything), nothing is written, the process stays closed -/
+theorem after_unbuildable_refresh_sends_fail (st : LState) (prio : Nat → Nat) (tid : Nat) (ies : List IE)
+    (hudp : st.proto = .udp) (hopen : st.closed = false) (hidle : st.pending = [])
+    (hrec : (tid, ies) ∈ st.tpls) (hfail : makeTemplateSet tid ies = none) (evs : List Event) :
+    (run (step st (.refreshTick prio)).1 evs).1.wire = st.wire ∧
+    (run (step st (.refreshTick prio)).1 evs).1.closed = true ∧
+    (∀ o ∈ (run (step st (.refreshTick prio)).1 evs).2, o = none ∨ o = some .err) ∧
+    ∀ time s, (step (runS (step st (.refreshTick prio)).1 evs) (.appSend time s)).2 = some .err ∧
+      (step (runS (step st (.refreshTick prio)).1 evs) (.appSend time s)).1.wire = st.wire := by
+  obtain ⟨hc, _, hw, _⟩ := unbuildable_refresh_closes st prio tid ies hudp hopen hidle hrec hfail
+  obtain ⟨h1, h2, h3⟩ := no_write_after_close _ hc evs
+  refine ⟨by rw [h1, hw], h2, h3, ?_⟩
+  intro time s
+  have hc2 : (runS (step st (.refreshTick prio)).1 evs).closed = true := h2
+  have hw2 : (runS (step st (.refreshTick prio)).1 evs).wire = st.wire := by
+    show (run (step st (.refreshTick prio)).1 evs).1.wire = st.wire
+    rw [h1, hw]
+  generalize runS (step st (.refreshTick prio)).1 evs = q at hc2 hw2
+  obtain ⟨g1, g2⟩ := send_closed q time s hc2
+  show some (q.send time s).2 = some .err ∧ (q.send time s).1.wire = st.wire
+  exact ⟨by rw [g1], by rw [g2, hw2]⟩
+
+/-- how the process gets there: a template set the application sends on an open process is transmitted and RECORDED
+    whether or not it can be rebuilt later - sending asks nothing of the element types (template records carry no
+    values) - so the precondition of `unbuildable_refresh_closes` is reachable through SendSet alone -/
+theorem sent_template_is_recorded (st : LState) (time : Nat) (s : SetB) (n : Nat) (w : Bytes)
+    (hty : s.ty = .template) (hok : (step st (.appSend time s)).2 = some (.ok n w)) :
+    (step st (.appSend time s)).1.tpls = recordTemplates st.tpls s ∧
+    (step st (.appSend time s)).1.wire = st.wire ++ [w] ∧ (step st (.appSend time s)).1.closed = false := by
+  simp only [step] at hok ⊢
+  have hsome : (st.send time s).2 = .ok n w := by simpa using hok
+  unfold LState.send at hsome ⊢
+  by_cases hcl : st.closed = true
+  · simp [hcl] at hsome
+  · have hcl' : st.closed = false := by simpa using hcl
+    simp only [hcl', Bool.false_eq_true, if_false] at hsome ⊢
+    cases hr : (st.exp.sendBuilt time s).2 with
+    | err => simp [hr] at hsome
+    | ok n' w' =>
+      simp only [hr] at hsome ⊢
+      injection hsome with e1 e2
+      subst e2
+      simp [hty, hcl']
+
 /-! ## TCP: the collector closes -/
 
 /-- once the collector has closed its side, the first connection check that reads EOF - after whatever
@@ -273,6 +345,45 @@ example : (runS (LState.init .udp 7) [.appSend 0 tplSet, .appSend 0 dataSet]).tp
 example : let r := run (LState.init .udp 7) udpDemo
     r.1.wire.length = 4 ∧ r.1.closed = true ∧ r.1.stopCloses = 1 ∧ r.1.exp.seq = 3 ∧
     r.2.map isErrOut = [false, false, true, true, false, true, true, true, true, true] := by decide
+
+/-- D17's template: the registry's flowStartMicroseconds (id 154, dateTimeMicroseconds = type 16) next to an ordinary
+    element. It can be built and sent by the application (an empty value is all a template record asks) ... -/
+def ieMicro : IE := ⟨"flowStartMicroseconds", 154, .dateTimeMicroseconds, 0, 8⟩
+def tplMicroSet : SetB := ((SetB.new.prepare .template 257).bind (·.addRecord [(ieU8, .num 0), (ieMicro, .num 0)] 257)).getD SetB.new
+
+/-- ... but not rebuilt: MakeTemplateSet fails on it (and on it alone), so `buildAll` fails in either order -/
+example : tplMicroSet.ty = .template ∧ tplMicroSet.recs.length = 1 ∧
+    makeTemplateSet 257 [ieU8, ieMicro] = none ∧ (makeTemplateSet 256 [ieU8, ieStr]).isSome = true ∧
+    buildAll [(256, [ieU8, ieStr]), (257, [ieU8, ieMicro])] = none ∧
+    buildAll [(257, [ieU8, ieMicro]), (256, [ieU8, ieStr])] = none := by decide
+
+/-- a UDP session with it: both templates and a data set go out (3 messages), the first refresh tick closes the process
+    without writing, its (empty) send loop does nothing, the data sets of the OTHER template sent afterwards are
+    refused - each call returns `.err` - and the application's Close finds the process closed already -/
+def udpUnrefreshableDemo : List Event :=
+  [.appSend 0 tplSet, .appSend 0 tplMicroSet, .appSend 0 dataSet, .refreshTick id, .refreshStep 0,
+   .appSend 0 dataSet, .appSend 0 dataSet, .close, .appSend 0 dataSet]
+
+example : (runS (LState.init .udp 7) (udpUnrefreshableDemo.take 3)).tpls = [(256, [ieU8, ieStr]), (257, [ieU8, ieMicro])] ∧
+    (runS (LState.init .udp 7) (udpUnrefreshableDemo.take 3)).closed = false ∧
+    (runS (LState.init .udp 7) (udpUnrefreshableDemo.take 3)).wire.length = 3 ∧
+    (runS (LState.init .udp 7) (udpUnrefreshableDemo.take 4)).closed = true ∧
+    (runS (LState.init .udp 7) (udpUnrefreshableDemo.take 4)).wire.length = 3 := by decide
+
+example : let r := run (LState.init .udp 7) udpUnrefreshableDemo
+    r.1.wire.length = 3 ∧ r.1.closed = true ∧ r.1.stopCloses = 1 ∧ r.1.pending = [] ∧
+    r.2 = [r.2.head!, r.2[1]!, r.2[2]!, none, none, some .err, some .err, none, some .err] ∧
+    r.2.map isErrOut = [false, false, false, true, true, true, true, true, true] := by decide
+
+/-- the same tick with the priority function that visits the unbuildable template LAST: nothing is written either -/
+example : (runS (LState.init .udp 7) (udpUnrefreshableDemo.take 3 ++ [.refreshTick (fun i => i), .refreshStep 0])).wire.length = 3 ∧
+    (runS (LState.init .udp 7) (udpUnrefreshableDemo.take 3 ++ [.refreshTick (fun i => 1000 - i), .refreshStep 0])).wire.length = 3 ∧
+    (runS (LState.init .udp 7) (udpUnrefreshableDemo.take 3 ++ [.refreshTick (fun i => 1000 - i)])).closed = true := by decide
+
+/-- the executable specification derives "cannot be rebuilt" from the element types: of these two templates only 257 -/
+example : unbuildable [{ ty := .template, setId := 256, recs := [(256, [(ieU8, .num 0), (ieStr, .bytes [])])] },
+                       { ty := .template, setId := 257, recs := [(257, [(ieU8, .num 0), (ieMicro, .num 0)])] },
+                       { ty := .data, setId := 256, recs := [(256, [(ieU8, .num 6), (ieStr, .bytes [97])])] }] = [257] := by decide
 
 /-- every order is possible: two templates, refreshed in either order depending on the priority function -/
 example : (refreshOrder id [(256, [ieU8]), (257, [ieStr])]).map (·.1) = [256, 257] ∧
